@@ -2,7 +2,7 @@
 //!
 //! case: {id, files:{name:text}, entry, opts:{mcase,rcase,brace,indent,lm,align,cm}, asm:bool}
 //! obs : {id, panic, parse_diags, ok, files:[{name, src, fmt, fmt2, ast, ast_fmt, comments, comments_fmt, lex, lex_fmt,
-//!        dropgap:[{text, owner}], fmt_lines, fmt2_lines (per line: n leading blanks, s rest, q rest without blanks, lc = label followed only by a comment, lo = only labels are left once comments are removed, cs = starts with a comment, el = `else` possibly after block comments, cont = starts inside a block comment)}], reparse_diags, asm_before, asm_after}
+//!        dropgap:[{text, owner}], fmt_lines, fmt2_lines (per line: n leading blanks, s rest, q rest without blanks, lc = label followed only by a comment, lo = only labels are left once comments are removed, cs = starts with a comment, el = only `else` is left once comments are removed, cont = starts inside a block comment)}], reparse_diags, asm_before, asm_after}
 //!
 //! Nothing here judges: the observation is only reshaped (normalised AST strings, comment lists, line splits) for TLC.
 use mos_core::codegen::{codegen, CodegenOptions};
@@ -310,14 +310,9 @@ fn split_lines(text: &str) -> Vec<Value> {
             let idlen = body.chars().take_while(|c| c.is_alphanumeric() || *c == '_').count();
             let after = body[idlen.min(body.len())..].strip_prefix(':').map(|r| r.trim_start());
             let lc = idlen > 0 && after.map(|r| r.starts_with("//") || r.starts_with("/*")).unwrap_or(false);
-            // el: the line is `else`, possibly after block comments
-            let tb = body.trim_end();
-            let el = tb.ends_with("else") && {
-                let pre = tb[..tb.len() - 4].trim();
-                pre.is_empty() || (pre.starts_with("/*") && pre.ends_with("*/"))
-            };
-            // lo: with the comments of the line removed only "<identifier>:" is left
-            let lo = {
+            // the line with its comments removed (cont lines are inside a comment to begin with)
+            let starts_in_comment = incom.get(i).copied().unwrap_or(false);
+            let code = {
                 let mut t = body.to_string();
                 while let (Some(a), Some(b)) = (t.find("/*"), t.find("*/")) {
                     if b < a {
@@ -328,13 +323,20 @@ fn split_lines(text: &str) -> Vec<Value> {
                 if let Some(a) = t.find("//") {
                     t.truncate(a);
                 }
-                let words: Vec<&str> = t.split_whitespace().collect();
+                if let Some(a) = t.find("/*") {
+                    t.truncate(a); // a block comment that continues on the next line
+                }
+                t.trim().to_string()
+            };
+            // el: only `else` is left; lo: only labels are left
+            let el = !starts_in_comment && code == "else";
+            let lo = !starts_in_comment && {
+                let words: Vec<&str> = code.split_whitespace().collect();
                 !words.is_empty()
                     && words.iter().all(|w| {
                         let n = w.chars().take_while(|c| c.is_alphanumeric() || *c == '_').count();
                         n > 0 && &w[n..] == ":"
                     })
-                    && !incom.get(i).copied().unwrap_or(false)
             };
             json!({"n": l.len() - body.len(), "s": body, "q": q, "lc": lc, "lo": lo, "el": el, "cs": body.starts_with("//") || body.starts_with("/*"), "cont": incom.get(i).copied().unwrap_or(false)})
         })
